@@ -283,6 +283,44 @@ def sizes(prog, res):
     res.need(R, 5)
 
 
+def checksum_presence_governs_consumption(prog, res):
+    """T9: whether a frame ENDS with a 4-byte checksum is a property of its header (fParams.checksumFlag); whether the
+    decoder VERIFIES it is a setting (validateChecksum = checksumFlag && !forceIgnoreChecksum).  Every decision about
+    consuming those 4 bytes — the transitions into the checkChecksum stage of the buffer-less core, the 4-byte step of the
+    one-shot frame decoder, the frame-size walker — must test the header flag: a decoder that tests the verification setting
+    finishes a frame 4 bytes early when verification is off and takes the checksum for the start of the next frame."""
+    R = "T9.checksum-presence-governs-consumption"
+    g = prog.fn("ZSTD_decompressContinue")
+    present = cond_edges(g, lambda c: c.get("k") == "mem" and c.get("f") == "checksumFlag", "true")
+    to_ck = g.find_roots(lambda x: x.get("k") == "asg" and strip_casts(x["lhs"]).get("f") == "stage" and
+                         strip_casts(x["rhs"]).get("n") == "ZSTDds_checkChecksum")
+    res.check(len(to_ck) >= 2, R, "transitions", g.loc, "%d transitions into the checksum stage" % len(to_ck), "transitions into ZSTDds_checkChecksum: %d" % len(to_ck))
+    for t in to_ck:
+        ln = g.blocks[t[0]]["el"][t[1]].get("l")
+        res.check(bool(present) and g.must_pass(via_edges=present, targets=[t]), R, "decompressContinue:to-checksum-stage@%s" % ln, "%s:%s" % (g.file, ln),
+                  "entered on the true edge of fParams.checksumFlag", "the checksum stage is entered on something else than the header's checksumFlag")
+    # no end-of-frame decision on the verification setting: a test of validateChecksum may only guard hashing/comparing
+    bad = []
+    for bid, cond, t, fl in g.branches():
+        c = g.resolve_x(cond)
+        if any(y.get("k") == "mem" and y.get("f") == "validateChecksum" for y in g.walk_resolved(c)):
+            for e in (t, fl):
+                reach = g.flow([(e, 0)])
+                other = g.flow([((fl if e == t else t), 0)])
+                sw = [w for w in g.find_roots(lambda x: x.get("k") == "asg" and strip_casts(x["lhs"]).get("f") in ("stage", "expected"))]
+                if {w for w in sw if w in reach} != {w for w in sw if w in other}:
+                    bad.append(c.get("l"))
+    res.check(not bad, R, "decompressContinue:verification-setting-decides-no-stage", g.loc,
+              "tests of validateChecksum do not change which stage / how many bytes come next",
+              "a test of dctx->validateChecksum (line %s) decides the next stage or the next expected size: with ZSTD_d_forceIgnoreChecksum the decoder "
+              "stops asking for the 4 checksum bytes that the frame still contains and ends the frame early" % sorted(set(bad)))
+    for name in ("ZSTD_decompressFrame", "ZSTD_findFrameSizeInfo"):
+        f = prog.fn(name)
+        pres = cond_edges(f, lambda c: c.get("k") == "mem" and c.get("f") == "checksumFlag", "true")
+        res.check(len(pres) >= 1, R, name + ":tests-header-flag", f.loc, "consumes the checksum on fParams.checksumFlag", "%s no longer tests the header's checksumFlag" % name)
+    res.need(R, 5)
+
+
 def run(tier):
     res = Result("C10", tier)
     tus, info = extract(["compress", "decompress", "common"])
@@ -293,6 +331,7 @@ def run(tier):
     return_provenance(prog, res)
     decoder_hints(prog, res)
     staging_buffer(prog, res)
+    checksum_presence_governs_consumption(prog, res)
     sizes(prog, res)
     return res.finish(
         explanation="The two streaming state machines cannot take a loop iteration that neither stops, changes stage nor "
